@@ -6,8 +6,9 @@ K3 threshold direction: tau sits in the `min` slot and Expr::filter_column turns
 K4 public-branch gate of PupRelation::dp_values
 K5 (added) the aggregation runs over the join with the released keys: Reduce::differentially_private / join_with_grouping_values
 """
+import re
 from . import facts
-from .core import Src, Anchor, find, walk, walk_guards, show, path_of, is_call_to, strip_generics
+from .core import Src, Anchor, find, walk, walk_guards, show, path_of, is_call_to, strip_generics, pat_binds
 from .util_dpflow import FnEnv, norm, strip_wrappers, chain_root, callee_name, pat_ident, contains, strip_try, _tail_expr, _closures
 
 LEVEL = "other"
@@ -841,6 +842,43 @@ def k5(rep, src):
         rep.violation("K5", "Relation::join_with_grouping_values@sides", "expected `left_outer` with the grouping values on the left and the tracked input on the right; found %s with left=%s right=%s" % (kinds, left, right), where)
     if not on_ok:
         rep.violation("K5", "Relation::join_with_grouping_values@on", "the join is not on equality of every grouping-values column between left and right", where)
+    # the surviving key columns are the released ones: the left side keeps its own names, colliding names of the input are the ones renamed
+    def names_arg(m):
+        if m in by and by[m][0]["args"]:
+            a = by[m][0]["args"][0]
+            while a["k"] == "mcall" and a["m"] in ("clone", "to_vec", "into_iter", "iter", "cloned") or a["k"] == "ref":
+                a = a["recv"] if a["k"] == "mcall" else a["e"]
+            return genv.resolve(a)
+        return None
+
+    def identity_names_of(e, who):
+        """e == <who>.schema().iter().map(|f| f.name().to_string()).collect()"""
+        if e is None or e["k"] != "mcall":
+            return False
+        r0, cs = chain_calls(e)
+        ms = [c2["m"] for c2 in cs]
+        mp = [c2 for c2 in cs if c2["m"] == "map" and c2["args"] and c2["args"][0]["k"] == "closure"]
+        if path_of(genv.resolve(r0)) != who or ms[:2] != ["schema", "iter"] or len(mp) != 1 or any(m not in ("schema", "iter", "map", "collect", "cloned") for m in ms):
+            return False
+        cl = mp[0]["args"][0]
+        ps = pat_binds(cl["params"][0]) if cl["params"] else []
+        body = show(strip_wrappers(cl["body"]), 0).replace(" ", "")
+        return bool(ps) and body in ("%s.name().to_string()" % ps[0], "%s.name().into()" % ps[0], "%s.name().to_owned()" % ps[0], "String::from(%s.name())" % ps[0])
+
+    ln, rn = names_arg("left_names"), names_arg("right_names")
+    ok_left = identity_names_of(ln, left)
+    ff = [n for n in walk(g.body) if n["k"] == "mcall" and n["m"] == "filter_fields"]
+    kept = None
+    if len(ff) == 1 and ff[0]["args"] and ff[0]["args"][0]["k"] == "closure":
+        for c2 in find(ff[0]["args"][0]["body"], "mcall"):
+            if c2["m"] == "contains":
+                kept = genv.resolve(c2["recv"])
+    ok_kept = identity_names_of(kept, right)
+    rep.instance("K5", "join_with_grouping_values@names", {"left_names": show(ln, 100), "right_names": show(rn, 100), "kept": show(kept, 100), "left_keeps_its_names": ok_left, "kept_are_input_names": ok_kept})
+    if not ok_left:
+        rep.violation("K5", "Relation::join_with_grouping_values@names", "the released grouping values (left) do not keep their own column names (`.left_names(%s)`): the key columns that survive the final projection are read from the tracked input, i.e. exactly the keys present in the data" % show(ln, 80), where)
+    if not ok_kept:
+        rep.violation("K5", "Relation::join_with_grouping_values@kept", "the final projection does not keep the input's field names: %s" % show(kept, 80), where)
 
 
 # =========================================================================== run
@@ -945,6 +983,94 @@ def k6(rep, src):
         rep.violation("K6", key, p, f.where())
 
 
+PROJECTING = {"with", "with_iter", "filter_fields_with", "map_with", "rename_with", "with_group_by", "group_by", "group_by_iter"}
+FILTERING = {"filter", "filter_iter"}
+EMPTY_ROOTS = ("Relation::map", "Map::builder", "MapBuilder::new", "MapBuilder::default", "Relation::reduce", "Reduce::builder")
+
+
+def b2(rep, src, rid="B2"):
+    """MapBuilder / ReduceBuilder: a filter is only kept in an existing Map split, so projections come first."""
+    rep.rule(
+        rid,
+        "builder order (syn, following let re-bindings and `fold(builder, |b, x| b.m(x))` accumulators): on a Map/Reduce builder that starts empty in this function "
+        "(Relation::map() / Map::builder(), or `self` inside the builder's own helper methods) no `.filter(..)` / `.filter_iter(..)` is applied before the first projection-adding call "
+        "(.with / .with_iter / .filter_fields_with / .map_with / .rename_with / .group_by)",
+        floor=6,
+        necessary="MapBuilder::filter and ReduceBuilder::filter install the predicate into the last existing Map split; on a builder whose split is still the default (empty Reduce, no inner Map) the predicate is "
+        "silently dropped (finding C08/E11): the threshold `count > tau` of tau-thresholding, or the WHERE of a query, disappears from the relation",
+    )
+    n = 0
+    for f in src.fns:
+        if f.test or not f.body or not f.file.startswith(("relation/builder.rs", "relation/rewriting.rs", "differential_privacy/", "privacy_unit_tracking/", "sql/relation.rs", "rewriting/")):
+            continue
+        in_builder_impl = bool(re.match(r"^(Map|Reduce)Builder", f.self_ty or ""))
+        env = {}  # local -> (root kind, [methods so far])
+
+        def seq(e):
+            """(root, [method names]) of the builder value computed by e, or None."""
+            e = strip_try(e)
+            if e["k"] == "path":
+                if e["p"] == "self" and in_builder_impl:
+                    return ("self", [])
+                return env.get(e["p"])
+            if e["k"] == "call":
+                pth = strip_generics(path_of(e["f"]) or "")
+                if pth.endswith(EMPTY_ROOTS):
+                    return ("empty", [])
+                return None
+            if e["k"] == "mcall":
+                if e["m"] == "fold" and len(e["args"]) == 2 and e["args"][1]["k"] == "closure":
+                    base = seq(e["args"][0])
+                    cl = e["args"][1]
+                    if base is None or not cl["params"]:
+                        return None
+                    acc = pat_binds(cl["params"][0])
+                    body = cl["body"]
+                    while body["k"] == "block" and len(body["stmts"]) == 1 and body["stmts"][0]["k"] == "expr":
+                        body = body["stmts"][0]["e"]
+                    ms = []
+                    while body["k"] == "mcall":
+                        ms.append(body["m"])
+                        body = body["recv"]
+                    if acc and path_of(body) == acc[0]:
+                        return (base[0], base[1] + list(reversed(ms)))
+                    return base
+                r = seq(e["recv"])
+                if r is None:
+                    return None
+                return (r[0], r[1] + [e["m"]])
+            return None
+
+        found = []
+        for st in f.body["stmts"]:
+            if st["k"] == "let" and st.get("init") is not None:
+                nm = pat_ident(st["pat"])
+                r = seq(st["init"])
+                if nm:
+                    if r is not None:
+                        env[nm] = r
+                        found.append((st["init"], r))
+                    else:
+                        env.pop(nm, None)
+            elif st["k"] == "expr":
+                r = seq(st["e"])
+                if r is not None:
+                    found.append((st["e"], r))
+        for e, (root, ms) in found:
+            if not any(m in FILTERING for m in ms):
+                continue
+            first_f = min(i for i, m in enumerate(ms) if m in FILTERING)
+            projs = [i for i, m in enumerate(ms) if m in PROJECTING]
+            key = "%s@%s" % (f.qual, root)
+            n += 1
+            rep.instance(rid, key, {"fn": f.qual, "root": root, "calls": ms[:14]})
+            if not projs or first_f < projs[0]:
+                if root == "self" and not projs:
+                    continue  # a pure pass-through helper such as filter_iter: self.filter(..) — the caller's order is what is judged
+                rep.violation(rid, key, "`.%s(..)` is applied before any projection was added (calls: %s): on an empty builder the predicate is silently dropped" % (ms[first_f], ms[:10]), "src/%s:%d" % (f.file, e.get("l", f.line)))
+    return n
+
+
 def run(rep):
     rep.explanation = (
         "Static def-use / term rules over the syn AST for 'grouping keys are released only if public or above tau'. Decides, on the source of PupRelation::tau_thresholding_values, "
@@ -968,5 +1094,6 @@ def run(rep):
     from .mir import Mir
 
     b1(rep, Mir(facts.mir_facts()), ["differential_privacy::", "relation::rewriting::"], rid="B1")
+    b2(rep, src)
     rep.assume("rustc accepts the tree (the syn facts are parsed from the same files the build uses)")
     rep.assume("method names unique / limit_col_contributions / add_gaussian_noise / filter_columns / filter_fields on a Relation resolve to relation/rewriting.rs (no other impl defines them for Relation)")
